@@ -28,12 +28,12 @@ fn vp_native_charset_selection_body() {
         h.insert(CONTENT_TYPE, HeaderValue::from_str(&shape.replace("{}", label)).unwrap());
         let want = enc.or(d).unwrap_or(charsets::WINDOWS_1252);
         assert_eq!(get_charset(&h, d), want, "Content-Type {:?} default {:?}", shape.replace("{}", label), d.map(|c| c.name()));
-        cases += 1;
+        cases += 1; crate::verif_native_watchdog::progress();
     } } }
     for d in defaults {
-        assert_eq!(get_charset(&HeaderMap::new(), d), d.unwrap_or(charsets::WINDOWS_1252)); cases += 1;
+        assert_eq!(get_charset(&HeaderMap::new(), d), d.unwrap_or(charsets::WINDOWS_1252)); cases += 1; crate::verif_native_watchdog::progress();
         let mut h = HeaderMap::new(); h.insert(CONTENT_TYPE, HeaderValue::from_static("text/plain"));
-        assert_eq!(get_charset(&h, d), d.unwrap_or(charsets::WINDOWS_1252)); cases += 1;
+        assert_eq!(get_charset(&h, d), d.unwrap_or(charsets::WINDOWS_1252)); cases += 1; crate::verif_native_watchdog::progress();
     }
     // every label of the WHATWG Encoding Standard table that encoding_rs may know, in lower, upper and mixed case; the
     // oracle for "known" is Encoding::for_label on the label itself (independent of get_charset)
@@ -64,7 +64,7 @@ fn vp_native_charset_selection_body() {
             h.insert(CONTENT_TYPE, HeaderValue::from_str(&shape.replace("{}", &l)).unwrap());
             let want = enc.or(d).unwrap_or(charsets::WINDOWS_1252);
             assert_eq!(get_charset(&h, d), want, "Content-Type {:?} default {:?}", shape.replace("{}", &l), d.map(|c| c.name()));
-            cases += 1;
+            cases += 1; crate::verif_native_watchdog::progress();
         } }
     } }
     assert!(known >= 3 * 150, "the label table is expected to be known to encoding_rs ({} hits)", known);
@@ -93,7 +93,7 @@ fn vp_native_streaming_equals_whole_body() {
             let mut out = Vec::new(); let mut b = vec![0u8; bufsize];
             loop { match r.read(&mut b) { Ok(0) => break, Ok(n) => out.extend_from_slice(&b[..n]), Err(e) => panic!("decoding error {} for {:?} {}", e, body, cs.name()) } }
             assert_eq!(String::from_utf8_lossy(&out), whole, "charset {} segments {} read size {}", cs.name(), seg, bufsize);
-            cases += 1;
+            cases += 1; crate::verif_native_watchdog::progress();
         } }
     } } }
     println!("VP-NATIVE streaming_equals_whole cases={}", cases);
@@ -126,7 +126,7 @@ fn vp_native_text_independent_of_body_segmentation_body() {
             (a, b, c) };
         let whole = read_all(body.len().max(1));
         for k in [1usize, 2, 3, 5] {
-            let got = read_all(k); cases += 1;
+            let got = read_all(k); cases += 1; crate::verif_native_watchdog::progress();
             assert_eq!(got, whole, "body {:?} declared as {}: text() / text_with(UTF-8) / text_reader() differ between one chunk and chunks of {} bytes", body, label, k);
         }
     } }
@@ -148,7 +148,7 @@ fn vp_native_text_total_on_truncated_tail_body() {
             Ok(_) => assert_eq!(s, whole, "truncated tail {:?} as {} with {}-byte segments", body, cs.name(), seg),
             Err(e) => panic!("text decoding failed ({}) for a body ending inside a multi-byte sequence: {:?} as {}", e, body, cs.name()),
         }
-        cases += 1;
+        cases += 1; crate::verif_native_watchdog::progress();
     } }
     println!("VP-NATIVE text_total_on_truncated_tail cases={}", cases);
 }
@@ -172,7 +172,7 @@ fn vp_native_text_helpers_decode_whole_body_body() {
         let req = PreparedRequest::new(http::Method::GET, "http://a.test/");
         let t1 = parse_response(BaseStream::mock(mk()), &req, req.url()).unwrap().text();
         let t2 = parse_response(BaseStream::mock(mk()), &req, req.url()).unwrap().text_with(cs);
-        cases += 1;
+        cases += 1; crate::verif_native_watchdog::progress();
         match (t1, t2) {
             (Ok(a), Ok(b)) => { assert_eq!(a, whole, "text() of {:?} as {}", body, label); assert_eq!(b, whole, "text_with() of {:?} as {}", body, label); }
             (a, b) => panic!("text helpers failed for {:?} as {}: {:?} {:?}", body, label, a.err(), b.err()),
@@ -194,7 +194,7 @@ fn vp_native_text_helpers_decode_whole_body_body() {
         let mk = || { let mut w = format!("HTTP/1.1 200 OK\r\n{}Content-Length: {}\r\n\r\n", ct, body.len()).into_bytes(); w.extend_from_slice(body); w };
         let configured = match rdef { Some(r) => r, None => sdef };
         let want_cs = header.and_then(|h| Encoding::for_label(h.as_bytes())).or(configured).unwrap_or(charsets::WINDOWS_1252);
-        let t = parse_response(BaseStream::mock(mk()), &req, req.url()).unwrap().text().unwrap(); cases += 1;
+        let t = parse_response(BaseStream::mock(mk()), &req, req.url()).unwrap().text().unwrap(); cases += 1; crate::verif_native_watchdog::progress();
         assert_eq!(t, want_cs.decode_without_bom_handling(body).0, "text(): header {:?} session default {:?} request default {:?}", header, sdef.map(|c| c.name()), rdef.map(|r| r.map(|c| c.name())));
         let t2 = parse_response(BaseStream::mock(mk()), &req, req.url()).unwrap().text_with(charsets::WINDOWS_1251).unwrap();
         assert_eq!(t2, charsets::WINDOWS_1251.decode_without_bom_handling(body).0, "text_with() ignores header and defaults");
@@ -222,7 +222,7 @@ fn vp_native_text_helpers_decode_whole_body_body() {
         let t1 = parse_response(BaseStream::mock(mk()), &req, req.url()).unwrap().text().unwrap();
         let t2 = parse_response(BaseStream::mock(mk()), &req, req.url()).unwrap().text_with(charsets::UTF_8).unwrap();
         let t3 = parse_response(BaseStream::mock(mk()), &req, req.url()).unwrap().text_utf8().unwrap();
-        cases += 1;
+        cases += 1; crate::verif_native_watchdog::progress();
         assert!(t1 == whole, "text() of a {}-byte body (shift {}, {} framing) differs from decoding the whole body", body.len(), k, framing);
         assert!(t2 == whole, "text_with() of a {}-byte body (shift {}, {} framing) differs from decoding the whole body", body.len(), k, framing);
         assert!(t3 == whole, "text_utf8() of a {}-byte body (shift {}, {} framing) differs from decoding the whole body", body.len(), k, framing);
